@@ -976,7 +976,7 @@ Proof.
     destruct (opt_bool opts "progress" && _); [discriminate|].
     destruct (ppt_active opts && negb (sess_feature caller "caller" f_ppt)); [discriminate|].
     destruct (ppt_active opts && negb (sess_feature cs "callee" f_ppt)); [discriminate|].
-    destruct (negb (reg_disclose rg) && _ && _); [discriminate|].
+    destruct (negb (reg_discloses rg cid) && _ && _); [discriminate|].
     match goal with |- context [let '(_, _) := (if ?c then _ else _) in _] => destruct c end;
       intros H; inversion H; subst; do 3 eexists; (split; [reflexivity|]); intros _; eapply select_callee_In; eauto.
 Qed.
